@@ -188,3 +188,77 @@ Fixpoint merge (p : part) : part :=
       end
     else c :: merge r
   end.
+
+(* ---- reading a multipart archive back, at chunk level ------------------------------------ *)
+(* Rust anchors: lib/src/archive/read.rs next_raw_item / raw_entries (entries are closed by FEND or
+   SEND, ANXT sets next_archive, AEND ends the part and keeps the chunks of an open entry in
+   self.buf), read_header / read_next_archive (buffer carried over, archive number must be the
+   previous + 1), cli commons.rs run_across_archive (follow the parts while the flag is set). *)
+Definition FEND := lit "FEND".
+Definition SEND := lit "SEND".
+Definition ty_is (t : bytes) (c : chunk) : bool := bytes_eqb (fst c) t.
+Definition is_end (c : chunk) : bool := ty_is FEND c || ty_is SEND c.
+
+(* `for entry in archive.raw_entries()` on the chunks after AHED: (raw entries, self.buf,
+   self.next_archive); chunks after AEND are not looked at *)
+Fixpoint read_body (buf : list chunk) (next : bool) (cs : list chunk) : res (list part * list chunk * bool) :=
+  match cs with
+  | [] => Err UnexpectedEof
+  | c :: r =>
+    if is_end c then
+      match read_body [] next r with
+      | Ok (es, b, n) => Ok ((buf ++ [c]) :: es, b, n)
+      | Err k => Err k
+      | Panic => Panic
+      end
+    else if ty_is ANXT c then read_body buf true r
+    else if ty_is AEND c then Ok ([], buf, next)
+    else read_body (buf ++ [c]) next r
+  end.
+
+Definition read_part_header (f : pfile) : res (N * list chunk) :=
+  match f with
+  | [] => Err UnexpectedEof
+  | c :: body =>
+    if ty_is AHED c then
+      match ahed_of_bytes (snd c) with
+      | Ok h => Ok (a_number h, body)
+      | Err k => Err k
+      | Panic => Panic
+      end
+    else Err InvalidData
+  end.
+
+(* [prev] = number of the part read before; a set flag with no further part is NotFound *)
+Fixpoint read_chain (prev : option N) (buf : list chunk) (fs : list pfile) : res (list part) :=
+  match fs with
+  | [] => Err NotFound
+  | f :: rest =>
+    match read_part_header f with
+    | Ok (num, body) =>
+      if (match prev with None => true | Some p => N.eqb (p + 1) num end) then
+        match read_body buf false body with
+        | Ok (es, b, true) =>
+          match read_chain (Some num) b rest with
+          | Ok es' => Ok (es ++ es')
+          | o => o
+          end
+        | Ok (es, _, false) => Ok es
+        | Err k => Err k
+        | Panic => Panic
+        end
+      else Err InvalidData
+    | Err k => Err k
+    | Panic => Panic
+    end
+  end.
+Definition read_parts (fs : list pfile) : res (list part) := read_chain None [] fs.
+
+(* cut a chunk sequence after each FEND/SEND: (entries, chunks of the open entry) *)
+Fixpoint scan (buf : list chunk) (cs : list chunk) : list part * list chunk :=
+  match cs with
+  | [] => ([], buf)
+  | c :: r =>
+    if is_end c then let (es, b) := scan [] r in ((buf ++ [c]) :: es, b)
+    else scan (buf ++ [c]) r
+  end.
